@@ -199,6 +199,29 @@ def steps_of(tr):
     return out
 
 
+READ_CALLS = ("open", "openat", "openat2", "read", "pread64", "getdents64", "stat", "lstat", "fstat", "newfstatat", "statx",
+              "access", "faccessat", "faccessat2", "readlink", "readlinkat")
+
+
+def read_calls(tr, steps, roots):
+    """the non-mutating calls (open for reading, read, getdents, stat family) of the main thread that touch a path at or
+    below one of `roots`, each with the number of mutating steps made before it (= index of the next step).
+    Needs a trace taken with set="all-fs"."""
+    pos = {id(s["call"]): i for i, s in enumerate(steps)}
+    cur = 0
+    out = []
+    for c in tr.all_calls:
+        if id(c) in pos:
+            cur = pos[id(c)] + 1
+            continue
+        if c.pid != tr.main_pid or c.k is None or c.mutating or c.name not in READ_CALLS:
+            continue
+        p = c.path
+        if isinstance(p, str) and any(hist.under(p, r) for r in roots):
+            out.append({"point": c.point, "name": c.name, "path": p, "next": cur, "call": c})
+    return out
+
+
 def occ_keys(steps):
     """[(step, occurrence index)] so that equal steps of one run can be told apart"""
     seen = {}
@@ -539,6 +562,7 @@ def record(tpl, env, set_=None):
         raise common.BuildError("recording run of %s failed: rc=%s %s %r" % (scn.name, tr.rc, tr.stderr[-300:], tr.parse_errors[:2]))
     r.trace = tr
     r.steps = steps_of(tr)
+    r.reads = read_calls(tr, r.steps, [main_root(w, scn), staged_root(w, scn)]) if set_ == "all-fs" else []
     r.new_view = obj_view(main_root(w, scn))
     r.errs, r.vrc = validate_both(w, scn, env)
     if r.alg is None:
@@ -581,7 +605,7 @@ def record(tpl, env, set_=None):
 
 def report_term(r, injs):
     """one Coq term evaluating Corr.CheckCommit.scenario_report; injs = list of ('F'|'K'|'KA'|'S', step index)"""
-    names = {"F": "OFault", "K": "OKill", "KA": "OKillAfter", "S": "OStop"}
+    names = {"F": "OFault", "K": "OKill", "KA": "OKillAfter", "S": "OStop", "R": "ORead"}
     js = "[" + "; ".join("%s %d%%nat" % (names[k], i) for k, i in injs) + "]"
     return "let T := %s in let P := %s in let C := %s in let O := %s in scenario_report %s C T P O %s %s" % (
         r.t_pre, r.t_post, r.cfg, r.obs, r.prog, r.ops, js)
@@ -653,8 +677,30 @@ def match_step(rec, tr, w):
     """the call the injection hit in THIS run (rocfl's HashSet order makes the calls of the dedup clean-up differ
     from run to run, so a point (name, n) of the recording may be another call here) mapped back to the index of
     the same call in the recording; and whether the run had installed into the main repository before it.
+    A failed NON-mutating call (read, stat, getdents, open for reading) is given the position of the mutating step
+    that follows it in the recording.
     returns (index or None, step tuple with ~ for the work directory, installed_before)"""
     steps = steps_of(tr)
+    mo = main_root(w, scn=rec.scn)
+    norm = lambda stp, base: tuple(x.replace(base, "~") if isinstance(x, str) else x for x in stp)
+    kinds = {"mkdirp": "mkdir", "unlinkp": "unlink"}
+    nk = lambda t_: (kinds.get(t_[0], t_[0]),) + tuple(t_[1:])
+    mine = [nk(norm(s["step"], w)) for s in steps]
+    theirs = [nk(norm(s["step"], rec.w)) for s in rec.steps]
+
+    def to_rec(k):
+        occ = mine[:k + 1].count(mine[k])
+        seen = 0
+        for j, t_ in enumerate(theirs):
+            if t_ == mine[k]:
+                seen += 1
+                if seen == occ:
+                    return j
+        return None
+
+    def installed_before(k):
+        return any(s["step"][0] == "rename" and s["ok"] and hist.under(s["step"][2], mo) for s in steps[:k])
+
     hit = None
     for i, s in enumerate(steps):
         c = s["call"]
@@ -664,23 +710,27 @@ def match_step(rec, tr, w):
         if any(tuple(p) == tuple(x.point) for x in tr.injected_calls() for p in s["more"]):
             hit = i
             break
-    if hit is None:
+    if hit is not None:
+        return to_rec(hit), mine[hit], installed_before(hit)
+    inj = [c for c in tr.injected_calls() if c.pid == tr.main_pid]
+    if not inj:
         return None, None, None
-    mo = main_root(w, scn=rec.scn)
-    installed = any(s["step"][0] == "rename" and s["ok"] and hist.under(s["step"][2], mo) for s in steps[:hit])
-    norm = lambda stp, base: tuple(x.replace(base, "~") if isinstance(x, str) else x for x in stp)
-    kinds = {"mkdirp": "mkdir", "unlinkp": "unlink"}
-    nk = lambda t_: (kinds.get(t_[0], t_[0]),) + tuple(t_[1:])
-    mine = [nk(norm(s["step"], w)) for s in steps]
-    theirs = [nk(norm(s["step"], rec.w)) for s in rec.steps]
-    occ = mine[:hit + 1].count(mine[hit])
-    seen = 0
-    for j, t_ in enumerate(theirs):
-        if t_ == mine[hit]:
-            seen += 1
-            if seen == occ:
-                return j, mine[hit], installed
-    return None, mine[hit], installed
+    pos = {id(s["call"]): i for i, s in enumerate(steps)}
+    cur = 0
+    for c in tr.all_calls:
+        if id(c) in pos:
+            cur = pos[id(c)] + 1
+        if c is inj[0]:
+            break
+    rd = ("read-" + inj[0].name, (inj[0].path or "?").replace(w, "~"))
+    if cur == 0:
+        nxt = 0
+    else:
+        j = to_rec(cur - 1)
+        nxt = None if j is None else j + 1
+    if nxt is not None and nxt >= len(theirs):
+        nxt = None
+    return nxt, rd, installed_before(cur)
 
 
 def run_case(rec, env, kind, idx, what=None, point=None, set_=None):
@@ -700,7 +750,8 @@ def run_case(rec, env, kind, idx, what=None, point=None, set_=None):
     tr = st.trace(cmd(w, scn, scn.final(w)), env=env, cwd=w, inject=inj, timeout=90)
     midx, hit, installed = match_step(rec, tr, w)
     o = {"scn": scn.name, "kind": kind, "idx": idx, "what": what or inj.get("signal"), "point": list(pt), "set": set_,
-         "rec_step": [x.replace(rec.w, "~") for x in rec.steps[idx]["step"]], "hit": hit, "midx": midx,
+         "rec_step": [x.replace(rec.w, "~") for x in rec.steps[min(idx, len(rec.steps) - 1)]["step"]], "hit": hit, "midx": midx,
+         "read": bool(hit and str(hit[0]).startswith("read-")),
          "rc": tr.rc, "killed": tr.killed, "stderr": tr.stderr.strip()[-240:], "reached": hit is not None,
          "timed_out": tr.timed_out, "parse_errors": tr.parse_errors[:2], "msgs": [], "follow": [],
          "installed_before": installed, "mid_file": bool(point)}
@@ -762,6 +813,9 @@ def run_case(rec, env, kind, idx, what=None, point=None, set_=None):
 QUICK = [("new", "0004", False), ("version", "0002", True), ("dedup", "0004", False), ("dedup", "0002", True),
          ("delete", "0002", False), ("upgrade", "0004", True), ("upgrade_fresh", "0002", False),
          ("upgrade_new", "0004", True), ("nested", "0002", True), ("version", "0004", False)]
+READ_ALL = [("version", "0004", False), ("version", "0002", True)]          # every read call is failed
+READ_SAMPLED = [("dedup", "0004", False), ("new", "0002", True), ("upgrade_new", "0004", True), ("upgrade", "0004", True),
+                ("delete", "0002", False)]                                      # a third of the read calls
 WRITE_GRANULARITY = [("version", "0004", False), ("upgrade", "0004", True), ("upgrade_new", "0004", True), ("new", "0004", False)]
 IMPORTS = ["Base.Bytes", "Model.FsOps", "Model.FsTree", "Model.Commit", "Model.KnownC04", "Corr.CheckCommit"]
 CLS_NO = {"old": 0, "new": 1, "invalid": 2, "other": 3}
